@@ -96,7 +96,7 @@ def run(shard, rec):
     else:
         g = G.generator
         bound = order if order else 2 ** 40
-        exps = [0, 1, 2, bound - 1 if order else 12345] + [rng.randrange(1, bound) for _ in range(shard['elems'])]
+        exps = [0, 1, 2, bound - 1 if order else 12345] + [rng.randrange(1, max(bound, 2)) for _ in range(shard["elems"])]
         elems = [g ^ r for r in exps]
     rec.count('elements', len(elems))
     # ---- laws on pairs / triples
